@@ -51,6 +51,7 @@ type authH struct {
 	seen    map[string]bool
 	rng     *RNG
 	mainnet bool
+	focus   func(all []string) []string // set by a group whose failing histories need its own selection of steps (dom_auth_ownerlists.go)
 }
 
 func b01(b bool) string {
@@ -125,7 +126,9 @@ func (h *authH) violate(mon, sig, what string) {
 	}
 	h.seen[sig] = true
 	hh := h.hist
-	if len(hh) > 40 { // the boot line and the first set-up line, then the most recent steps
+	if h.focus != nil {
+		hh = h.focus(hh)
+	} else if len(hh) > 40 { // the boot line and the first set-up line, then the most recent steps
 		hh = append(append([]string{}, hh[:2]...), hh[len(hh)-38:]...)
 	}
 	h.env.Violate(mon, sig, what, hh)
@@ -823,6 +826,7 @@ func domAuth(env *Env) error {
 			h.oracleGroup()
 			h.oracleMultiGroup() // dom_auth_oracle_multi.go
 			h.taskGroup()
+			h.ownerListGroup()       // dom_auth_ownerlists.go: owner-gated entry points on every owner list an AVS can reach through accepted updates
 			h.operatorMsgGroup()     // dom_auth_opmsg.go: on whose record an admitted operator message lands
 			h.discardedParamsGroup() // dom_auth_discard.go: params updates on dropped store branches, then the checks again (last: see there)
 			// every registered sdk.Msg type as an outsider's signed tx, on a chain of its own (dom_auth_allmsgs.go)
